@@ -17,6 +17,7 @@ from .minimir import Adt, Interp, Panic, Slice, Unsupported, UninitBox
 from .stdmodel import MapVal, StrBuf, deref, tmp_ref
 
 PROGRAMS = [
+    "map(keys_unsorted)", "map(keys)", "map(.x|keys_unsorted)?", "[.[]|keys_unsorted]?", "map(to_entries)?", "map(length)", "map(keys_unsorted|length)?",
     "keys|.[0]", "keys|.[1]", "keys|.[2]", "keys|.[3]", "keys|.[6]", "keys|.[-1]", "keys_unsorted|.[1]", "keys|.[5]", "[keys|.[0,1,2,3]]", ".[][(0,1):]?", ".[(0,1):(2,3)]", "[.[]?|.[(0,1):]?]", ".[(1,0)]?", ".[(0,1)]?", "[.[1:][(0,1)]?]",
     ".", ".a", ".a.b", ".[0]", ".[-1]", ".[1:]", ".[:2]", ".[1:3]", ".a[1:]", ".[]", ".a[]", "..", ".a?", ".[]?", '."a"', '.["a"]', ".a.b.c?", ".[0][0]", ".[2:1]", ".[-2:]",
     ".a,.b", ".[]|.a?", "(.a,.b)|type", ".[] | select(type==\"number\")", ".a as $x | $x", ". as [$a,$b] | $b", ". as {a:$x} | $x",
@@ -36,6 +37,7 @@ PROGRAMS = [
 ]
 
 INPUTS = [
+    '[{"b":1,"a":2},{"z":0,"m":1,"c":2}]', '{"p":{"b":1,"a":2},"q":{"z":0,"c":2}}',
     "null", "true", "0", "1.5", "-3", '"abc"', '""', '"é"', '"a,b,c"', "[]", "[1,2,3]", "[3,1,2]", "[[1],[2,[3]]]", '{"a":1,"b":2}', '{"a":{"b":[1,2]}}', '{"a":1,"a":2}', '[1,"a",null,true,{"a":1},[2]]',
     '{"k":"a","a":1,"b":null}', "9007199254740993", "[1e1000,-0,0.1,1e-7,100000000000000000000]", '[{"a":1,"b":"x"},{"a":1,"b":"y"},{"a":0}]', '{"a":[{"b":1},{"b":2}],"c":{"a":null}}', '["b","a","c","a"]', '{"a":false,"b":0,"c":"","d":[],"e":{}}', "[[1,2],[3,4]]", '"  padded  "', '[[0,1],[1,0]]', '{"b":{"y":1,"x":2,"y":3},"a":[{"k":1,"k":2}]}', "[null,null]", "3", "[0,1,2,3,4,5,6,7,8,9]",
 ]
@@ -142,8 +144,8 @@ def rule_evaluators(progs, tier, name="JQEVAL", floor_share=0.5):
         out.append(res)
         I = Interp(P, max_steps=500000, max_depth=500)
         I.features = {"avx2": True, "bmi2": True, "sse4.1": True, "sse4.2": True, "ssse3": True, "sse2": True}
-        progs_ = PROGRAMS if tier == "thorough" else PROGRAMS[:15] + PROGRAMS[15::2] + ["..", "map(.+1)", "reverse", "unique", "flatten"]
-        inputs = INPUTS if tier == "thorough" else ["null", "[]", "[3,1,2]", '{"a":1,"b":2}', '{"a":1,"a":2}', '"abc"', '[1,"a",null,true,{"a":1},[2]]', '{"a":{"b":[1,2]}}', "1.5"]
+        progs_ = PROGRAMS if tier == "thorough" else PROGRAMS[:22] + PROGRAMS[22::3] + ["..", "map(.+1)", "reverse", "unique", "flatten"]
+        inputs = INPUTS if tier == "thorough" else ["null", "[]", '[{"b":1,"a":2},{"z":0,"m":1,"c":2}]', "[3,1,2]", '{"a":1,"b":2}', '{"a":1,"a":2}', '"abc"', '[1,"a",null,true,{"a":1},[2]]', '{"a":{"b":[1,2]}}', "1.5"]
         n_ok = n_skip = n_parse_fail = 0
         skipped = {}
         examples = {}
